@@ -94,7 +94,12 @@ def o_static(seq: str, rules: List[Tuple[str, List[str]]], nrule: Optional[Tuple
     for r, ms in rules:
         new = [(x, 1) for x in ms]
         for i in targets(seq, r):
-            m["res"][i] = _apply(mode, orig["res"][i], new) if orig["res"][i] else m["res"][i] + new
+            if not orig["res"][i]:
+                m["res"][i] = m["res"][i] + new          # unmodified in the input: every matching rule adds its modifications
+            elif mode == "append":
+                m["res"][i] = m["res"][i] + new
+            elif mode == "overwrite":
+                m["res"][i] = list(new)                  # (several overwriting rules on one residue: the last one stays)
     if nrule and (0 in targets(seq, nrule[0]) if nrule[0] else True):
         m["nt"] = _apply(mode, orig["nt"], [(x, 1) for x in nrule[1]])
     if crule and ((len(seq) - 1) in targets(seq, crule[0]) if crule[0] else True):
